@@ -91,6 +91,28 @@ def emit(sc, buf, via, rnd=None):
         sc.line(nmea.line(payload=pay, fill=fill), p=0, dec=1)
 
 
+def emit_group(sc, buf, rnd, p=0, history=True):
+    """Sends a message as an in-order fragment group, optionally after an abandoned group (a parser that is
+    not fresh): the decoded message must be the same as for the unfragmented sentence."""
+    pay, fill = nmea.armor(buf.bytes(), buf.n)
+    if len(pay) < 2:
+        sc.line(nmea.line(payload=pay, fill=fill), p, 1)
+        return
+    if history:
+        sid0 = rnd.choice([None, 1, 3])
+        n0 = rnd.randrange(2, 4)
+        for k in range(1, rnd.randrange(2, n0 + 1)):
+            sc.line(nmea.line(n=n0, k=k, sid=sid0, payload=bytes(rnd.choice(nmea.ARMOR) for _ in range(rnd.randrange(1, 9)))), p, 1)
+        if rnd.random() < 0.3:       # the first fragment of the abandoned group once more
+            sc.line(nmea.line(n=n0, k=1, sid=sid0, payload=bytes(rnd.choice(nmea.ARMOR) for _ in range(5))), p, 1)
+    parts = rnd.randrange(2, min(5, len(pay)) + 1)
+    cuts = sorted(rnd.sample(range(1, len(pay)), parts - 1))
+    cuts = [0] + cuts + [len(pay)]
+    sid = rnd.choice([None, 1, 3, 8])
+    for k in range(1, parts + 1):
+        sc.line(nmea.line(n=parts, k=k, sid=sid, payload=pay[cuts[k - 1]:cuts[k]], fill=fill if k == parts else 0), p, 1)
+
+
 def rand_message(tb, rnd, t=None, shape=None):
     if shape is None:
         cands = [s for s in shapes() if t is None or s[0] == t]
@@ -160,6 +182,8 @@ def fam_random_messages(tier, n_q=3000, n_t=60000, tag="randmsg"):
             sc.unit()
         buf = rand_message(tb, rnd, shape=S[i % len(S)])
         emit(sc, buf, "D" if i % 3 else "L")
+        if i % 9 == 4:
+            emit_group(sc, buf, rnd)
     return sc
 
 
@@ -224,6 +248,17 @@ def fam_armor(tier):
     # arbitrary byte strings
     for i in range(3000 if thorough else 200):
         n = rnd.randrange(0, 40)
+        sc.unarmor(bytes(rnd.randrange(256) for _ in range(n)), rnd.randrange(6))
+    # long strings with many bytes outside the alphabet (counts around 255 / 256 / 257 and beyond)
+    bad = [x for x in range(256) if x not in ALPHA]
+    for nbad in (2, 100, 254, 255, 256, 257, 258, 300, 511, 512, 513, 1000):
+        for total in (nbad, nbad + 7, nbad + 200):
+            d = bytearray(rand_armor(rnd, total))
+            for pos in rnd.sample(range(total), nbad):
+                d[pos] = rnd.choice(bad)
+            sc.unarmor(bytes(d), rnd.randrange(6))
+        sc.unarmor(bytes([rnd.choice(bad)]) * nbad, 0)
+    for n in (255, 256, 257, 600, 1000, 2000):
         sc.unarmor(bytes(rnd.randrange(256) for _ in range(n)), rnd.randrange(6))
     return sc
 
@@ -321,6 +356,23 @@ def fam_checksum(tier):
                 m = bytearray(good)
                 m[pos] = rnd.randrange(256)
                 sc.line(bytes(m), 0, 0)
+    # long lines: the whole body is covered, however long it is
+    for plen in (300, 379, 380, 385, 420, 700, 1500):
+        sc.unit()
+        sc.new(0)
+        kw = dict(payload=rand_armor(rnd, plen), fill=0)
+        good = nmea.line(**kw)
+        sc.line(good, 0, 0)
+        body = nmea.body(**kw)
+        for cutoff in (255, 256, 383, 384, 385, 512, 1024):
+            if cutoff < len(body):
+                sc.line(nmea.line(ck=nmea.xor(body[:cutoff]), **kw), 0, 0)       # XOR of a prefix only
+        for pos in sorted({len(good) - 6, len(good) - 20, 380, 384, 385, 386, 390, 400, 513, 1025} | {rnd.randrange(len(good)) for _ in range(10)}):
+            if 0 < pos < len(good) - 3:
+                m = bytearray(good)
+                m[pos] ^= 1 << rnd.randrange(7)
+                if m[pos] not in (44, 42):
+                    sc.line(bytes(m), 0, 0)
     # wrong checksums on continuation / final fragments inside an open group, then the right one
     for gi in range(400 if thorough else 30):
         sc.unit()
@@ -1366,6 +1418,13 @@ def fam_totality(tier):
                     sc.line(nmea.line(**kw), 0, 0)
                 sc.line(f, 0, rnd.randrange(2))
                 sc.line(f, 0, 1)
+    # the longest group the sentence grammar allows: fragments 1..255 of 255 (one-character payloads)
+    for dec in (0, 1):
+        sc.unit()
+        sc.new(0)
+        for k in range(1, 256):
+            sc.line(nmea.line(n=255, k=k, sid=7, payload=b"0", fill=0), 0, dec)
+        sc.line(nmea.line(n=255, k=255, sid=7, payload=b"0"), 0, dec)
     # unarmor: every length x fill on random alphabet strings, plus random bytes
     sc.unit()
     step = 1 if thorough else 7
@@ -1432,4 +1491,15 @@ def fam_text_small(tier):
                     buf.put(off + 6 * i, 6, allc)
                 emit(sc, buf, "D")
                 emit(sc, buf, "L")
+            # fields made of padding only: a run of blanks then '@'s, '@'s then blanks, with one letter in between
+            for a in range(nch + 1):
+                for codes in ([32] * a + [0] * (nch - a), [0] * a + [32] * (nch - a),
+                              ([32] * a + [1] + [0] * (nch - a - 1)) if a < nch else None,
+                              ([0] * a + [1] + [32] * (nch - a - 1)) if a < nch else None):
+                    if codes is None:
+                        continue
+                    buf = text_base(tb, rnd, t, nch)
+                    for i, c in enumerate(codes):
+                        buf.put(off + 6 * i, 6, c)
+                    emit(sc, buf, "D")
     return sc
